@@ -144,6 +144,9 @@ func (w *World) ruleKindNarrowing(r *Report, rule string) {
 				}
 				_, changed := src.wrap(tb, tsig)
 				switch {
+				case changed && convOnlyCompared(cv):
+					// a guard, not data (rules_writerflow.go): `uint64(i64)+(1<<31) > MaxUint32`
+					r.add(rule, key, w.instrPos(cv), true, fmt.Sprintf("the result of the conversion is only compared (a range guard): it never reaches the wire (kinds here: %v)", kinds))
 				case !changed && tb < sb && func() bool { p, _ := w.refusesRepresentable(cv, f, tb, tsig); return p != "" }():
 					pos, set := w.refusesRepresentable(cv, f, tb, tsig)
 					r.add(rule, key, w.instrPos(cv), false, fmt.Sprintf("the range test in front of the conversion refuses values that fit: the error return at %s is reached with operand ∈ %s, which meets the range of %s — a representable value is not carried", pos, set, typeStr(cv.Type())))
